@@ -1,9 +1,14 @@
 """Seeded generator of small *temporal* problem recipes and time-triggered plans (DESIGN §4 `gen/temporal.py`).
 Owner: agent "temporal" (C05, C26, C28; reusable by C18/C19/C29).
 
-    gen_temporal(rng, profile=None) -> (recipe, features)      recipe in the vk/recipe.py format
-    gen_tt_plan(rng, recipe, n_steps=None, profile=None) -> [[start "p/q", action_name, [args], duration "p/q"|None], ...]
-    plan_steps(problem, plan_recipe) -> timed_steps for vk.ref.ttsem / ttsem.library_plan
+    gen_temporal(rng, profile=None) -> (recipe, features)      recipe in the vk/recipe.py format (profile keys: TEMPORAL_PROFILE
+                                                               + the C01-grammar keys of vk.gen.problem.DEFAULT_PROFILE)
+    gen_tt_plan(rng, recipe, n_steps=None, accept=None, ...) -> [[start "p/q", action_name, [args], duration "p/q"|None], ...]
+                                                               (accept(partial_plan) -> bool optionally guides the construction)
+    plan_steps(problem, plan_recipe) -> timed_steps for vk.ref.ttsem.validate / ttsem.library_plan
+    instantiate(recipe, env) -> (problem, ctx)                 vk.recipe.instantiate_problem + problem-level timed effects
+    gen_problem_fixed(rng, profile) -> (recipe, features)      vk.gen.problem.gen_problem with a repaired objs_of (harmless once
+                                                               the base class is repaired)
 
 The classical skeleton (types, objects, fluents, conditions, effects, goals, invariants) comes from the C01 grammar
 (`vk.gen.problem.G`); every instantaneous action is then turned into a durative one with probability `durative`:
